@@ -1176,6 +1176,19 @@ func gen(seed uint64, n int, outDir, corpusDir string) {
 	res.Write(filepath.Join(outDir, "result.json"))
 }
 
+// counters regenerates coq/gen/C13Counters.v: the declared widths of the
+// reference counters of the node cache (trie/database.go: cachedNode.parents,
+// values of cachedNode.children), read from the compiled working tree.
+func counters(out string) {
+	p, c := trie.VerifCounterBits()
+	if p <= 0 || c <= 0 {
+		fmt.Println("cannot determine the counter widths")
+		os.Exit(2)
+	}
+	txt := fmt.Sprintf("(* GENERATED by harness/cmd/c13 from trie/database.go of the working tree. Do not edit. *)\nFrom Coq Require Import NArith.\nDefinition parents_bits : N := %d%%N.   (* cachedNode.parents *)\nDefinition children_bits : N := %d%%N.  (* values of cachedNode.children *)\n", p, c)
+	vf.WriteIfChanged(out, txt)
+}
+
 func replay(file string) {
 	b, err := ioutil.ReadFile(file)
 	if err != nil {
@@ -1227,6 +1240,8 @@ func main() {
 		replay(*file)
 	case "exec":
 		execWorker(*file, *from, *to, *out)
+	case "counters":
+		counters(*out)
 	default:
 		fmt.Println("usage: c13 gen|replay")
 		os.Exit(2)
